@@ -2,7 +2,11 @@
 
 package mbapp
 
-import "math"
+import (
+	"bytes"
+	"context"
+	"math"
+)
 
 // Verification hooks (build tag verif).
 
@@ -13,4 +17,24 @@ func (s *Swarm[A, Pub]) VerifHoldPartials() {
 	s.fragLayer.mu.Lock()
 	s.fragLayer.ttl = math.MaxInt64
 	s.fragLayer.mu.Unlock()
+}
+
+// VerifLateReply re-enacts, single-threaded, the interleaving in which an Ask's
+// context ends after the receive worker has already looked the ask up
+// (handleAskReply: getAndRemoveAsk, then complete): the reply is completed
+// after await has returned.  It reports await's error and whether the caller's
+// response buffer was written after await returned.
+func VerifLateReply(respBuf, reply []byte) (awaitErr error, written bool) {
+	ar := newAsker()
+	id := askID{Addr: "peer"}
+	a := ar.createAsk(id, respBuf)
+	worker := ar.getAndRemoveAsk(id)
+	ctx, cf := context.WithCancel(context.Background())
+	cf()
+	awaitErr = a.await(ctx)
+	before := append([]byte{}, respBuf...)
+	if worker != nil {
+		worker.complete(reply, 0)
+	}
+	return awaitErr, !bytes.Equal(before, respBuf)
 }
